@@ -28,6 +28,14 @@ CLAIMED = {
             'exploration: held on ~10^6 kernel evaluations per quick run (exhaustive for all simple polygons with 3-5 vertices on 3x3/4x4 lattices, 5x5 in the thorough tier; random otherwise)',
             'integer-arithmetic polygon oracle; Bezier oracle is a 4000-samples-per-segment brute force over the library\'s own curve evaluation with golden-section refinement; feet within 1 % of the trench ends are outside the quantifier; far-field and two-point-trench solver failures are known findings',
             'DESIGN.md section 4, C19'),
+    'C04': ('runtime monitoring: reference-model monitor - exact rational polygon x depth-interval oracle and a plume reference built from the property statement, evaluated next to the real code on single-feature worlds (ASan+UBSan build)',
+            'exploration: held on ~3x10^4 points per quick run (cartesian: exact incl. boundary lattice points and the floating point neighbours of min/max depth; spherical: clear-margin points incl. the +-360 alias; plumes incl. head and continuation)',
+            'world files carry numbers with <= 12 significant digits so that rapidjson parses them exactly; spherical boundary points and degenerate ellipses are excluded',
+            'DESIGN.md section 4, C04'),
+    'C06': ('runtime monitoring: reference-model monitor - independent planar slab/fault construction (straight lines and arcs) compared with World::distance_to_plane and the tag on generated straight-trench worlds (ASan+UBSan build)',
+            'exploration: held on ~5x10^4 points per quick run over hundreds of geometries (any azimuth/dip side, 1-4 segments, overturned dips, arcs, min depth > 0, truncations); tolerance 1e-3 m',
+            'ambiguous reference points (junction wedges, ties, beyond the centre of curvature, trench ends) are skipped and counted; spherical worlds are judged against the statement and the known non-orthonormal frame is recognised by its exact signature',
+            'DESIGN.md section 4, C06'),
 }
 
 PENDING_REASON = 'check not built yet (work in progress; see DESIGN.md section 9)'
